@@ -2,9 +2,14 @@
 //! model (Common/Term.v) and against the laws themselves (oracle).  Also: the accessors, the component iterators
 //! (atoms / constituents and their consuming variants), to_triple, the std operators between DIFFERENT term types, the
 //! string wrappers' std traits, graph_name_eq, term -> native conversions, and every other way of building a term.
+//! Hashing is compared as the SEQUENCE OF CALLS made on the `Hasher` (so: for every hasher, including those that are sensitive to
+//! the boundaries of the calls; three such hashers are run as well), through every entry point (value, references, borrow_term, CmpTerm,
+//! std Hash).  The pools hold texts with "normalisable" features (case of scheme / host / percent-encoding, dot segments, ports, NFC / NFD,
+//! tags in every case mix), side by side with their would-be normal forms, and every copy of a term into a stash (several histories) or
+//! a term index must spell the term it was given.
 use rdf_types::vocabulary::{BlankIdVocabulary, BlankIdVocabularyMut, IriVocabulary, IriVocabularyMut, LanguageTagVocabulary, LanguageTagVocabularyMut, LiteralVocabulary, LiteralVocabularyMut};
 use rio_api::model as rio;
-use sophia_api::ns::NsTerm;
+use sophia_api::ns::{Namespace, NsTerm};
 use sophia_api::quad::Quad as _;
 use sophia_api::term::{graph_name_eq, BnodeId, CmpTerm, FromTerm, IriRef, LanguageTag, SimpleTerm, Term, TermKind, TryFromTerm, VarName};
 use sophia_api::triple::Triple as _;
@@ -13,6 +18,7 @@ use sophia_jsonld::RdfTerm;
 use sophia_jsonld::vocabulary::{ArcBnode, ArcIri, ArcTag, ArcVoc};
 use sophia_rio::model::Trusted;
 use sophia_sparql::ResultTerm;
+use sophia_inmem::index::{SimpleTermIndex, TermIndex};
 use sophia_term::{ArcStrStash, ArcTerm, GenericLiteral, RcStrStash, RcTerm};
 use std::borrow::Borrow;
 use std::cmp::Ordering;
@@ -21,13 +27,103 @@ use std::rc::Rc;
 use std::sync::Arc;
 use verif_harness::*;
 
+/// The recording hasher: it records the SEQUENCE OF CALLS made on the `Hasher` (method + argument), not only the bytes.
+/// "Equal terms hash identically" must hold for every `Hasher`, including those whose result depends on how the bytes are
+/// split into calls (FxHash and friends, anything that pads / finalises / mixes the length of each `write`), so equal terms
+/// must produce the same call sequence whatever the Rust type holding them.
+/// (`write_str` / `write_length_prefix` are unstable methods that cannot be overridden on stable: `str: Hash` reaches the hasher
+/// as `write(bytes); write_u8(0xff)`, which is what a real third-party hasher sees as well.)
+#[derive(Clone, Copy, PartialEq, Eq, Debug)]
+enum M { Write, U8, U16, U32, U64, U128, Usize, I8, I16, I32, I64, I128, Isize }
+fn m_code(m: M) -> usize { match m { M::Write => 0, M::U8 => 1, M::U16 => 2, M::U32 => 3, M::U64 => 4, M::U128 => 5, M::Usize => 6, M::I8 => 7, M::I16 => 8, M::I32 => 9, M::I64 => 10, M::I128 => 11, M::Isize => 12 } }
+#[derive(Default, Clone, PartialEq, Eq)]
+struct Trace(Vec<(M, Vec<u8>)>);
+impl Trace {
+    /// what a boundary-insensitive hasher sees: the concatenation of the arguments (native-endian integers)
+    fn bytes(&self) -> Vec<u8> { self.0.iter().flat_map(|(_, b)| b.iter().copied()).collect() }
+    /// feed the same calls to another hasher
+    fn replay<H: Hasher>(&self, h: &mut H) {
+        for (m, b) in &self.0 { match m {
+            M::Write => h.write(b), M::U8 => h.write_u8(b[0]), M::U16 => h.write_u16(u16::from_ne_bytes(b[..].try_into().unwrap())), M::U32 => h.write_u32(u32::from_ne_bytes(b[..].try_into().unwrap())),
+            M::U64 => h.write_u64(u64::from_ne_bytes(b[..].try_into().unwrap())), M::U128 => h.write_u128(u128::from_ne_bytes(b[..].try_into().unwrap())), M::Usize => h.write_usize(usize::from_ne_bytes(b[..].try_into().unwrap())),
+            M::I8 => h.write_i8(b[0] as i8), M::I16 => h.write_i16(i16::from_ne_bytes(b[..].try_into().unwrap())), M::I32 => h.write_i32(i32::from_ne_bytes(b[..].try_into().unwrap())),
+            M::I64 => h.write_i64(i64::from_ne_bytes(b[..].try_into().unwrap())), M::I128 => h.write_i128(i128::from_ne_bytes(b[..].try_into().unwrap())), M::Isize => h.write_isize(isize::from_ne_bytes(b[..].try_into().unwrap())),
+        } }
+    }
+    fn coq(&self) -> String { coq_list(self.0.iter().map(|(m, b)| format!("({}, {})", m_code(*m), coq_bytes(b)))) }
+}
+impl std::fmt::Debug for Trace {
+    fn fmt(&self, f: &mut std::fmt::Formatter<'_>) -> std::fmt::Result {
+        f.write_str("[")?;
+        for (k, (m, b)) in self.0.iter().enumerate() { if k > 0 { f.write_str(", ")?; } match m { M::Write => write!(f, "write({})", String::from_utf8_lossy(b).escape_debug())?, M::U8 => write!(f, "write_u8({:#x})", b[0])?, _ => write!(f, "write_{}({b:?})", format!("{m:?}").to_lowercase())? } }
+        f.write_str("]")
+    }
+}
 #[derive(Default)]
-struct Rec(Vec<u8>);
+struct Rec(Trace);
 impl Hasher for Rec {
     fn finish(&self) -> u64 { 0 }
-    fn write(&mut self, b: &[u8]) { self.0.extend_from_slice(b) }
+    fn write(&mut self, b: &[u8]) { self.0.0.push((M::Write, b.to_vec())) }
+    fn write_u8(&mut self, i: u8) { self.0.0.push((M::U8, vec![i])) }
+    fn write_u16(&mut self, i: u16) { self.0.0.push((M::U16, i.to_ne_bytes().to_vec())) }
+    fn write_u32(&mut self, i: u32) { self.0.0.push((M::U32, i.to_ne_bytes().to_vec())) }
+    fn write_u64(&mut self, i: u64) { self.0.0.push((M::U64, i.to_ne_bytes().to_vec())) }
+    fn write_u128(&mut self, i: u128) { self.0.0.push((M::U128, i.to_ne_bytes().to_vec())) }
+    fn write_usize(&mut self, i: usize) { self.0.0.push((M::Usize, i.to_ne_bytes().to_vec())) }
+    fn write_i8(&mut self, i: i8) { self.0.0.push((M::I8, vec![i as u8])) }
+    fn write_i16(&mut self, i: i16) { self.0.0.push((M::I16, i.to_ne_bytes().to_vec())) }
+    fn write_i32(&mut self, i: i32) { self.0.0.push((M::I32, i.to_ne_bytes().to_vec())) }
+    fn write_i64(&mut self, i: i64) { self.0.0.push((M::I64, i.to_ne_bytes().to_vec())) }
+    fn write_i128(&mut self, i: i128) { self.0.0.push((M::I128, i.to_ne_bytes().to_vec())) }
+    fn write_isize(&mut self, i: isize) { self.0.0.push((M::Isize, i.to_ne_bytes().to_vec())) }
 }
-fn rec<T: Term>(t: T) -> Vec<u8> { let mut h = Rec::default(); Term::hash(&t, &mut h); h.0 }
+fn rec<T: Term>(t: T) -> Trace { let mut h = Rec::default(); Term::hash(&t, &mut h); h.0 }
+fn rec_std<T: std::hash::Hash + ?Sized>(t: &T) -> Trace { let mut h = Rec::default(); std::hash::Hash::hash(t, &mut h); h.0 }
+
+// ---- three small real hashers whose digest depends on the boundaries of the calls ----
+/// FxHash (rustc-hash 1.x): every `write` eats its slice by 8/4/2/1-byte words
+#[derive(Default)]
+struct FxLike(u64);
+impl FxLike { fn add(&mut self, i: u64) { self.0 = (self.0.rotate_left(5) ^ i).wrapping_mul(0x51_7c_c1_b7_27_22_0a_95); } }
+impl Hasher for FxLike {
+    fn write(&mut self, mut b: &[u8]) {
+        while b.len() >= 8 { self.add(u64::from_le_bytes(b[..8].try_into().unwrap())); b = &b[8..]; }
+        if b.len() >= 4 { self.add(u32::from_le_bytes(b[..4].try_into().unwrap()) as u64); b = &b[4..]; }
+        if b.len() >= 2 { self.add(u16::from_le_bytes(b[..2].try_into().unwrap()) as u64); b = &b[2..]; }
+        if let Some(x) = b.first() { self.add(*x as u64); }
+    }
+    fn write_u8(&mut self, i: u8) { self.add(i as u64) } fn write_u16(&mut self, i: u16) { self.add(i as u64) } fn write_u32(&mut self, i: u32) { self.add(i as u64) }
+    fn write_u64(&mut self, i: u64) { self.add(i) } fn write_usize(&mut self, i: usize) { self.add(i as u64) }
+    fn finish(&self) -> u64 { self.0 }
+}
+/// FNV-1a over the bytes, mixing in the LENGTH of every call (as hashers that finalise / pad each `write` do)
+struct LenMix(u64);
+impl Default for LenMix { fn default() -> Self { LenMix(0xcbf2_9ce4_8422_2325) } }
+impl Hasher for LenMix {
+    fn write(&mut self, b: &[u8]) { for x in b { self.0 = (self.0 ^ *x as u64).wrapping_mul(0x100_0000_01b3); } self.0 = (self.0 ^ (b.len() as u64).wrapping_add(0x9E37_79B9_7F4A_7C15)).wrapping_mul(0x100_0000_01b3); }
+    fn finish(&self) -> u64 { self.0 }
+}
+/// rotates its state at the end of every call (any kind), so the number and the position of the calls matter
+#[derive(Default)]
+struct CallRot(u64, u32);
+impl Hasher for CallRot {
+    fn write(&mut self, b: &[u8]) { for x in b { self.0 = self.0.wrapping_mul(31).wrapping_add(*x as u64); } self.1 = self.1.wrapping_add(1); self.0 = self.0.rotate_left(7 + (self.1 % 13)) ^ 0xA5A5_5A5A_0F0F_F0F0; }
+    fn finish(&self) -> u64 { self.0 }
+}
+/// the digests of one term under the three hashers above and under std's SipHash (the real Term::hash drives each of them)
+fn digests<T: Term + ?Sized>(t: &T) -> [u64; 4] {
+    let (mut a, mut b, mut c, mut d) = (FxLike::default(), LenMix::default(), CallRot::default(), std::collections::hash_map::DefaultHasher::new());
+    Term::hash(t, &mut a); Term::hash(t, &mut b); Term::hash(t, &mut c); Term::hash(t, &mut d);
+    [a.finish(), b.finish(), c.finish(), d.finish()]
+}
+const HASHERS: [&str; 4] = ["FxHash-like", "length-mixing FNV", "per-call-rotating", "std SipHash"];
+/// which of the real hashers tell two traces apart (for the message of a violation)
+fn told_apart(x: &Trace, y: &Trace) -> String {
+    let run = |t: &Trace| { let (mut a, mut b, mut c, mut d) = (FxLike::default(), LenMix::default(), CallRot::default(), std::collections::hash_map::DefaultHasher::new()); t.replay(&mut a); t.replay(&mut b); t.replay(&mut c); t.replay(&mut d); [a.finish(), b.finish(), c.finish(), d.finish()] };
+    let (dx, dy) = (run(x), run(y));
+    let v: Vec<&str> = (0..4).filter(|k| dx[*k] != dy[*k]).map(|k| HASHERS[k]).collect();
+    if v.is_empty() { "same digest under the four test hashers, but the calls differ".into() } else { format!("different digests under: {}", v.join(", ")) }
+}
 
 /// one value in one representation
 enum Rep<'a> {
@@ -87,7 +183,12 @@ fn rio_strict<'a>(st: &'a ST) -> Option<rio::Term<'a>> {
         SimpleTerm::Variable(_) => None,
     }
 }
+/// rio's `Trusted` wrapper trusts every IRI to be absolute (debug assertions): terms with a relative IRI reference are not given to it
+fn rio_ok(st: &ST) -> bool {
+    match st { SimpleTerm::Iri(i) => Iri::new(i.as_str()).is_ok(), SimpleTerm::LiteralDatatype(_, d) => Iri::new(d.as_str()).is_ok(), SimpleTerm::Triple(tr) => tr.iter().all(rio_ok), _ => true }
+}
 fn rio_triple<'a>(tr: &'a [ST; 3]) -> Option<&'a rio::Triple<'a>> {
+    if !tr.iter().all(rio_ok) { return None; }
     let subject = match &tr[0] {
         SimpleTerm::Iri(i) => rio::Subject::NamedNode(rio::NamedNode { iri: i.as_str() }),
         SimpleTerm::BlankNode(b) => rio::Subject::BlankNode(rio::BlankNode { id: b.as_str() }),
@@ -108,6 +209,7 @@ fn rio_gen<'a>(st: &'a ST) -> rio::GeneralizedTerm<'a> {
     }
 }
 fn rio_gname<'a>(st: &'a ST) -> Option<rio::GraphName<'a>> {
+    if !rio_ok(st) { return None; }
     match st {
         SimpleTerm::Iri(i) => Some(rio::GraphName::NamedNode(rio::NamedNode { iri: i.as_str() })),
         SimpleTerm::BlankNode(b) => Some(rio::GraphName::BlankNode(rio::BlankNode { id: b.as_str() })),
@@ -166,8 +268,11 @@ fn reps<'a>(a: &'a Abs, arc_stash: &mut ArcStrStash, rc_stash: &mut RcStrStash) 
     match st {
         SimpleTerm::Iri(i) => {
             v.push(Rep::IriRefW(IriRef::new_unchecked(i.as_str())));
-            v.push(Rep::IriW(Iri::new_unchecked(i.as_str().to_string())));
+            if Iri::new(i.as_str()).is_ok() { v.push(Rep::IriW(Iri::new_unchecked(i.as_str().to_string()))); }
             for k in &a.ns_split { v.push(Rep::Ns(NsTerm::new_unchecked(IriRef::new_unchecked(&i.as_str()[..*k]), &i.as_str()[*k..]))); }
+            // the namespace constants of sophia_api::ns themselves, and terms handed out by a Namespace (natural split: after the last '#' or '/')
+            for c in ns_constants() { if c.iri().unwrap().as_str() == i.as_str() { v.push(Rep::Ns(c)); } }
+            if let Some(k) = natural_split(i.as_str()).filter(|k| IriRef::new(&i.as_str()[..*k]).is_ok()) { let ns: &'a Namespace<&'a str> = Box::leak(Box::new(Namespace::new_unchecked(&i.as_str()[..k]))); v.push(Rep::Ns(ns.get_unchecked(&i.as_str()[k..]))); if let Ok(t) = ns.get(&i.as_str()[k..]) { v.push(Rep::Ns(t)); } }
             v.push(Rep::RioNamed(Trusted(rio::NamedNode { iri: i.as_str() })));
             v.push(Rep::RioTerm(Trusted(rio::Term::NamedNode(rio::NamedNode { iri: i.as_str() }))));
             v.push(Rep::RioGen(Trusted(rio::GeneralizedTerm::NamedNode(rio::NamedNode { iri: i.as_str() }))));
@@ -206,31 +311,93 @@ fn reps<'a>(a: &'a Abs, arc_stash: &mut ArcStrStash, rc_stash: &mut RcStrStash) 
             v.push(Rep::Rc(rc_from_parts(st)));
         }
     }
+    if !rio_ok(st) { v.retain(|r| !matches!(r, Rep::RioNamed(_) | Rep::RioBlank(_) | Rep::RioVar(_) | Rep::RioLit(_) | Rep::RioTerm(_) | Rep::RioGen(_) | Rep::RioGName(_))); }
     v
 }
 
 // ---------- generation ----------
 const STRS: [&str; 12] = ["", "a", "b", "ab", "aa", "A", "a\u{e9}", "a\u{ff}", "\u{10000}", "\u{ffff}", "z", "a b"];
-const TAGS: [&str; 7] = ["en", "EN", "En", "en-US", "en-us", "fr", "FR"];
+/// language tags in every case mix (equal terms), next to tags that extend / are a prefix of another one (different terms); all well-formed BCP47
+const TAGS: [&str; 30] = ["en", "EN", "En", "eN", "en-US", "en-us", "EN-US", "En-Us", "eN-uS", "en-Us", "fr", "FR", "fr-FR", "fr-fr", "Fr-fR",
+    "zh-Hant-TW", "zh-hant-tw", "ZH-HANT-TW", "zh-HANT-tw", "de-CH-1996", "de-ch-1996", "DE-CH-1996", "sr-Latn-RS", "sr-latn-rs", "x-Private", "x-private", "X-PRIVATE", "de", "DE", "dE"];
+/// Families of IRIs that some normalisation would identify (RFC 3986 section 6: case of the scheme / of the host / of percent-encoded
+/// octets, percent-encoding of unreserved characters, dot segments, default / empty ports, empty path; Unicode NFC / NFD / compatibility
+/// characters; IDNA) -- and that are all DIFFERENT RDF terms: IRIs are compared character by character, nothing may normalise them.
+const IRI_FAMILIES: [&[&str]; 22] = [
+    &["http://example.org/a", "HTTP://example.org/a", "Http://example.org/a", "hTTp://example.org/a"],
+    &["http://example.org/a", "http://EXAMPLE.org/a", "http://Example.ORG/a", "http://example.org/A"],
+    &["http://example.org/%7euser", "http://example.org/%7Euser", "http://example.org/~user"],
+    &["http://example.org/a%2fb", "http://example.org/a%2Fb", "http://example.org/a/b", "http://example.org/%61/b"],
+    &["http://example.org/a/b", "http://example.org/a/./b", "http://example.org/a/c/../b", "http://example.org/./a/b", "http://example.org/a/b/."],
+    &["http://example.org/a", "http://example.org:80/a", "http://example.org:/a", "http://example.org:080/a"],
+    &["https://example.org/", "https://example.org:443/", "https://example.org", "HTTPS://EXAMPLE.ORG:443/"],
+    &["http://example.org/caf\u{e9}", "http://example.org/cafe\u{301}", "http://example.org/caf%C3%A9", "http://example.org/caf%c3%a9"],
+    &["http://example.org/\u{c5}", "http://example.org/\u{212b}", "http://example.org/A\u{30a}"],
+    &["urn:isbn:0451450523", "URN:isbn:0451450523", "urn:ISBN:0451450523", "Urn:Isbn:0451450523"],
+    &["http://example.org/a#", "http://example.org/a", "http://example.org/a?", "http://example.org/a?#"],
+    &["http://xn--caf-dma.example/", "http://caf\u{e9}.example/", "http://CAF\u{c9}.example/"],
+    &["mailto:User@Example.org", "mailto:user@example.org", "MAILTO:user@example.org"],
+    &["tel:+1-816-555-1212", "TEL:+1-816-555-1212", "tel:+18165551212"],
+    &["a/b", "a/./b", "./a/b", "a/c/../b"],
+    &["#Frag", "#frag", "", "#"],
+    &["./A:b", "A:b", "a:b", "./a:b"],
+    &["//example.org/a", "//EXAMPLE.org/a", "//example.org:80/a"],
+    &["http://www.w3.org/1999/02/22-rdf-syntax-ns#type", "HTTP://www.w3.org/1999/02/22-rdf-syntax-ns#type", "http://www.w3.org/1999/02/22-rdf-syntax-ns#Type", "http://WWW.W3.ORG/1999/02/22-rdf-syntax-ns#type"],
+    &["http://www.w3.org/2001/XMLSchema#integer", "HTTP://www.w3.org/2001/XMLSchema#integer", "http://www.w3.org/2001/XMLSchema#Integer", "http://www.w3.org/2001/./XMLSchema#integer", "https://www.w3.org/2001/XMLSchema#integer"],
+    &["http://www.w3.org/2001/XMLSchema#string", "HTTP://www.w3.org/2001/XMLSchema#string", "http://www.w3.org/2001/xmlschema#string", "http://www.w3.org:80/2001/XMLSchema#string"],
+    &["http://www.w3.org/1999/02/22-rdf-syntax-ns#langString", "HTTP://www.w3.org/1999/02/22-rdf-syntax-ns#langString", "http://www.w3.org/1999/02/22-rdf-syntax-ns#langstring", "http://www.w3.org/1999/02/../02/22-rdf-syntax-ns#langString"],
+];
+/// the same for the other texts a term is made of (all valid as blank node label, as variable name and as lexical form)
+const TEXT_FAMILIES: [&[&str]; 7] = [&["b1", "B1", "b01"], &["caf\u{e9}", "cafe\u{301}", "CAF\u{c9}"], &["\u{c5}", "\u{212b}", "A\u{30a}"], &["n_1", "n1", "N_1"], &["x", "X"], &["\u{fb01}", "fi"], &["http", "HTTP"]];
+/// lexical forms only
+const LEX_FAMILIES: [&[&str]; 7] = [&["HTTP://example.org/a", "http://example.org/a"], &["1", "01", "+1", "1.0"], &[" a", "a", "a "], &["a\r\nb", "a\nb"], &["TRUE", "true", "True"], &["a%2fb", "a%2Fb"], &["en", "EN"]];
+fn norm_iri(r: &mut Rng) -> &'static str { let f = *r.pick(&IRI_FAMILIES[..]); *r.pick(f) }
+/// ... as a datatype: never rdf:langString itself (an untagged literal typed rdf:langString is ill-formed, the property quantifies over well-formed terms)
+fn norm_dt(r: &mut Rng) -> &'static str { loop { let d = norm_iri(r); if d != "http://www.w3.org/1999/02/22-rdf-syntax-ns#langString" { return d; } } }
+fn well_formed(st: &ST) -> bool { match st { SimpleTerm::LiteralDatatype(_, d) => d.as_str() != "http://www.w3.org/1999/02/22-rdf-syntax-ns#langString", SimpleTerm::Triple(tr) => tr.iter().all(well_formed), _ => true } }
+/// the same term with the ASCII case of every letter of every language tag chosen at random (None if it has no tag)
+fn mix_case(st: &ST, r: &mut Rng) -> Option<ST> {
+    match st {
+        SimpleTerm::LiteralLanguage(lex, tag) => { let t: String = tag.as_str().chars().map(|c| if r.chance(1, 2) { c.to_ascii_uppercase() } else { c.to_ascii_lowercase() }).collect(); Some(lit_lang(lex, &t)) }
+        SimpleTerm::Triple(tr) => {
+            let f: Vec<Option<ST>> = tr.iter().map(|c| mix_case(c, r)).collect();
+            if f.iter().all(|x| x.is_none()) { None } else { let mut it = f.into_iter().zip(tr.iter()).map(|(x, o)| x.unwrap_or_else(|| o.clone())); Some(triple(it.next().unwrap(), it.next().unwrap(), it.next().unwrap())) }
+        }
+        _ => None,
+    }
+}
+fn norm_text(r: &mut Rng) -> &'static str { let f = *r.pick(&TEXT_FAMILIES[..]); *r.pick(f) }
+fn norm_lex(r: &mut Rng) -> &'static str { if r.chance(1, 2) { norm_text(r) } else { let f = *r.pick(&LEX_FAMILIES[..]); *r.pick(f) } }
+/// an IRI of the historical shape http://e/<word>, or (one time out of three) a member of a family above
+fn gen_iri_text(r: &mut Rng, w: &str) -> String { if r.chance(1, 3) { norm_iri(r).to_string() } else { format!("http://e/{w}") } }
+/// the namespace constants of sophia_api::ns that the families above spell
+fn ns_constants() -> [NsTerm<'static>; 5] { use sophia_api::ns::{rdf, rdfs, xsd}; [rdf::type_, rdf::langString, xsd::integer, xsd::string, rdfs::label] }
+fn natural_split(i: &str) -> Option<usize> { i.rfind(|c| c == '#' || c == '/').map(|k| k + 1) }
 fn word(r: &mut Rng) -> String { r.pick(&STRS[..]).replace(' ', "_").replace('\u{ffff}', "\u{ffef}") }
 /// subject: IRI / blank node / strict triple; predicate: IRI; object: anything but a variable
 fn gen_strict_triple(r: &mut Rng, depth: usize) -> ST {
-    let s_ = match r.below(if depth > 1 { 4 } else { 3 }) { 0 | 1 => iri(&format!("http://e/{}", word(r))), 2 => bnode(&format!("b{}", word(r))), _ => gen_strict_triple(r, depth - 1) };
+    let s_ = match r.below(if depth > 1 { 4 } else { 3 }) { 0 | 1 => { let w = word(r); iri(&gen_iri_text(r, &w)) }, 2 => bnode(&format!("b{}", word(r))), _ => gen_strict_triple(r, depth - 1) };
     let p_ = iri(&format!("http://e/{}", r.ps(&["p", "q", "a", ""])));
     let o_ = match r.below(if depth > 1 { 6 } else { 5 }) {
-        0 => iri(&format!("http://e/{}", word(r))), 1 => bnode(&format!("b{}", word(r))), 2 => lit_dt(*r.pick(&STRS[..]), &format!("{XSD}string")),
+        0 => { let w = word(r); iri(&gen_iri_text(r, &w)) }, 1 => bnode(&format!("b{}", word(r))), 2 => lit_dt(*r.pick(&STRS[..]), &format!("{XSD}string")),
         3 => { let l = *r.pick(&STRS[..]); lit_lang(l, *r.pick(&TAGS[..])) }, 4 => lit_dt(&r.below(3).to_string(), &format!("{XSD}integer")), _ => gen_strict_triple(r, depth - 1) };
     triple(s_, p_, o_)
 }
 fn gen_abs(r: &mut Rng, depth: usize) -> Abs {
     let k = r.below(if depth > 0 { 12 } else { 10 });
     let s = *r.pick(&STRS[..]);
+    let w = s.replace(' ', "_").replace('\u{ffff}', "\u{ffef}");
+    // one time out of three, a text with "normalisable" features instead of the short historical ones
+    let lex: &str = if r.chance(1, 3) { norm_lex(r) } else { s };
     let (st, native) = match k {
-        0 | 1 => (iri(&format!("http://e/{}", s.replace(' ', "_").replace('\u{ffff}', "\u{ffef}"))), Native::None),
-        2 => (bnode(&format!("{}{}{}", r.ps(&["b", "b", "_", "__", "_b", "0"]), s.replace(' ', "_").replace('\u{ffff}', "\u{ffef}"), r.ps(&["", "", "1", "-0"]))), Native::None),
-        3 => (var(&format!("v{}", s.replace(' ', "_").replace('\u{ffff}', "\u{ffef}"))), Native::None),
-        4 => (lit_dt(s, &format!("{XSD}string")), Native::Str),
-        5 => (lit_lang(s, *r.pick(&TAGS[..])), Native::None),
+        0 | 1 => (iri(&gen_iri_text(r, &w)), Native::None),
+        2 if r.chance(1, 3) => (bnode(norm_text(r)), Native::None),
+        2 => (bnode(&format!("{}{}{}", r.ps(&["b", "b", "_", "__", "_b", "0"]), w, r.ps(&["", "", "1", "-0"]))), Native::None),
+        3 if r.chance(1, 3) => (var(norm_text(r)), Native::None),
+        3 => (var(&format!("v{w}")), Native::None),
+        4 => (lit_dt(lex, &format!("{XSD}string")), Native::Str),
+        5 => (lit_lang(lex, *r.pick(&TAGS[..])), Native::None),
+        6 if r.chance(1, 2) => (lit_dt(lex, norm_dt(r)), Native::None),
         6 => (lit_dt(s, *r.pick(&["http://e/dt", "http://e/", "http://www.w3.org/2001/XMLSchema#integer", "http://www.w3.org/1999/02/22-rdf-syntax-ns#langStrinG"])), Native::None),
         7 => { let x = *r.pick(&[0i32, 1, -1, 42, 200, i32::MAX, i32::MIN]);
                // mostly xsd:integer (the datatype of the native i32); sometimes a derived type whose range the value may or may not fit
@@ -251,7 +418,7 @@ fn gen_abs(r: &mut Rng, depth: usize) -> Abs {
             (triple(s_, p_, o_), Native::None)
         }
     };
-    let ns_split = match &st { SimpleTerm::Iri(i) => { let n = i.as_str().len(); let mut v = vec![0, n]; for _ in 0..2 { let k = r.below(n + 1); if i.as_str().is_char_boundary(k) { v.push(k) } } v } _ => vec![] };
+    let ns_split = match &st { SimpleTerm::Iri(i) => { let n = i.as_str().len(); let mut v = vec![0, n]; if let Some(k) = natural_split(i.as_str()) { if !v.contains(&k) { v.push(k); } } for _ in 0..2 { let k = r.below(n + 1); if i.as_str().is_char_boundary(k) { v.push(k) } } v.retain(|k| IriRef::new(&i.as_str()[..*k]).is_ok()); /* (the namespace of an NsTerm is itself an IRI reference) */ v } _ => vec![] };
     Abs { st, native, ns_split }
 }
 
@@ -270,17 +437,22 @@ fn flip_case(st: &ST) -> Option<ST> {
 /// lexical form or datatype, a quoted triple with the same atoms bracketed differently or with two components swapped)
 fn chop(s: &str) -> &str { let mut c = s.chars(); c.next_back(); c.as_str() }
 fn near_variants(st: &ST, r: &mut Rng) -> Vec<ST> {
+    let ok_iri = |x: &str| IriRef::new(x).is_ok();
     let ext = |x: &str| format!("{x}a");
     match st {
-        SimpleTerm::LiteralLanguage(l, tag) => { let t = tag.as_str(); let mut v = vec![lit_lang(l, &format!("{t}-GB")), lit_lang(&ext(l), t), lit_dt(l, &format!("{XSD}string"))]; /* (NOT an untagged literal typed rdf:langString: that term is ill-formed, and the property quantifies over well-formed terms) */ if let Some(k) = t.find('-') { v.push(lit_lang(l, &t[..k])); } v }
+        SimpleTerm::LiteralLanguage(l, tag) => { let t = tag.as_str();
+            // a longer tag (a region, or a private-use subtag where a region cannot follow), the tag's first subtag; only well-formed tags (the unchecked constructor checks in debug builds)
+            let longer = [format!("{t}-GB"), format!("{t}-x-gb"), format!("{t}-gb")].into_iter().find(|g| LanguageTag::new(g.as_str()).is_ok());
+            let mut v = vec![]; if let Some(g) = longer { v.push(lit_lang(l, &g)); } v.push(lit_lang(&ext(l), t)); v.push(lit_dt(l, &format!("{XSD}string"))); /* (NOT an untagged literal typed rdf:langString: that term is ill-formed, and the property quantifies over well-formed terms) */ if let Some(k) = t.find('-') { if LanguageTag::new(&t[..k]).is_ok() { v.push(lit_lang(l, &t[..k])); } } v }
         SimpleTerm::LiteralDatatype(l, d) if l.chars().next().is_some_and(|c| c.is_ascii_digit() || c == '-') && r.chance(2, 3) => {
             // other spellings of the same number (not the same TERM): leading zero, plus sign, -0, decimal point
             let digits = l.trim_start_matches('-'); let neg = l.starts_with('-');
             vec![lit_dt(&format!("{}0{digits}", if neg { "-" } else { "" }), d.as_str()), lit_dt(&if neg { l.to_string() } else { format!("+{l}") }, d.as_str()), lit_dt(&if digits == "0" { "-0".to_string() } else { format!("{l}.0") }, d.as_str())] }
-        SimpleTerm::LiteralDatatype(l, d) => vec![lit_dt(l, &ext(d.as_str())), lit_dt(&ext(l), d.as_str()), lit_lang(l, "en"), lit_dt(l, chop(d.as_str()))],
-        SimpleTerm::Iri(i) => vec![iri(&ext(i.as_str())), iri(chop(i.as_str())), lit_dt(i.as_str(), &format!("{XSD}string")), lit_dt("", i.as_str())],
-        SimpleTerm::BlankNode(b) => vec![bnode(&ext(b.as_str())), var(b.as_str()), iri(&format!("x:{}", b.as_str()))],
-        SimpleTerm::Variable(x) => vec![var(&ext(x.as_str())), bnode(x.as_str())],
+        SimpleTerm::LiteralDatatype(l, d) => { let mut v = vec![]; if ok_iri(&ext(d.as_str())) { v.push(lit_dt(l, &ext(d.as_str()))); } v.push(lit_dt(&ext(l), d.as_str())); v.push(lit_lang(l, "en")); if ok_iri(chop(d.as_str())) { v.push(lit_dt(l, chop(d.as_str()))); } v }
+        SimpleTerm::Iri(i) => { let mut v = vec![]; if ok_iri(&ext(i.as_str())) { v.push(iri(&ext(i.as_str()))); } if ok_iri(chop(i.as_str())) { v.push(iri(chop(i.as_str()))); } v.push(lit_dt(i.as_str(), &format!("{XSD}string"))); v.push(lit_dt("", i.as_str())); v }
+        // (the unchecked constructors check in debug builds: a label that is no variable name is not turned into a variable, and so on)
+        SimpleTerm::BlankNode(b) => { let mut v = vec![bnode(&ext(b.as_str()))]; if VarName::new(b.as_str()).is_ok() { v.push(var(b.as_str())); } let i = format!("x:{}", b.as_str()); if IriRef::new(i.as_str()).is_ok() { v.push(iri(&i)); } v }
+        SimpleTerm::Variable(x) => { let mut v = vec![var(&ext(x.as_str()))]; if BnodeId::new(x.as_str()).is_ok() { v.push(bnode(x.as_str())); } v }
         SimpleTerm::Triple(tr) => {
             let (a, b, c) = (tr[0].clone(), tr[1].clone(), tr[2].clone());
             let mut v = vec![triple(c.clone(), b.clone(), a.clone()), triple(a.clone(), c.clone(), b.clone())];
@@ -290,6 +462,18 @@ fn near_variants(st: &ST, r: &mut Rng) -> Vec<ST> {
             v
         }
     }
+}
+/// every way of reaching the hash of ONE value: Term::hash on the value, on references to it (the `&T` impl forwards), on what
+/// `borrow_term` hands out, on a CmpTerm around it (which forwards Term::hash, and whose std Hash is Term::hash)
+fn hash_entries<T: Term>(t: &T) -> Vec<(&'static str, Trace)> {
+    vec![("Term::hash(value)", { let mut h = Rec::default(); Term::hash(t, &mut h); h.0 }),
+        ("Term::hash(borrow_term())", rec(t.borrow_term())), ("Term::hash(borrow_term().borrow_term())", rec(t.borrow_term().borrow_term())),
+        ("Term::hash(CmpTerm(borrow_term()))", rec(CmpTerm(t.borrow_term()))), ("Term::hash(CmpTerm(CmpTerm(borrow_term())))", rec(CmpTerm(CmpTerm(t.borrow_term())))),
+        ("std Hash of CmpTerm(borrow_term())", rec_std(&CmpTerm(t.borrow_term()))), ("Term::hash(CmpTerm(borrow_term()).borrow_term())", rec(CmpTerm(t.borrow_term()).borrow_term()))]
+}
+/// the same through the `impl Term for &T` (which exists for the types that lend themselves as `&T`)
+fn ref_entries<'a, T: Term<BorrowTerm<'a> = &'a T> + ?Sized>(t: &'a T) -> Vec<(&'static str, Trace)> {
+    vec![("Term::hash(&value)", rec(t)), ("Term::hash(&&value)", { let mut h = Rec::default(); Term::hash(&t, &mut h); h.0 }), ("Term::hash(CmpTerm(&value))", rec(CmpTerm(t))), ("std Hash of CmpTerm(&value)", rec_std(&CmpTerm(t)))]
 }
 /// the std traits of a type holding terms must tell the same story as the Term methods
 fn std_traits_agree<T: Term + Ord + Eq + std::hash::Hash>(x: &T, y: &T) -> Option<String> {
@@ -444,10 +628,10 @@ fn coq_ostr(o: &Option<String>) -> String { coq_opt(o.as_deref().map(coq_str)) }
 fn kind_rank(k: TermKind) -> usize { match k { TermKind::BlankNode => 0, TermKind::Iri => 1, TermKind::Literal => 2, TermKind::Triple => 3, TermKind::Variable => 4 } }
 
 /// a value built along some other construction path must spell the term (and so be equal, compare Equal, hash the same)
-fn same<T: Term>(how: &str, c: T, st: &ST, h0: &[u8], obs: &mut Vec<String>, fails: &mut Vec<String>) {
+fn same<T: Term>(how: &str, c: T, st: &ST, h0: &Trace, obs: &mut Vec<String>, fails: &mut Vec<String>) {
     let spelled = coq_term(c.borrow_term());
-    if !(Term::eq(&c, st) && Term::eq(st, c.borrow_term()) && Term::cmp(&c, st) == Ordering::Equal && Term::cmp(st, c.borrow_term()) == Ordering::Equal && rec(c.borrow_term()) == h0 && spelled == coq_term(st)) {
-        fails.push(format!("{how}: built {c:?} for the term {st:?} (eq={}, cmp={:?}, same hash={})", Term::eq(&c, st), Term::cmp(&c, st), rec(c.borrow_term()) == h0));
+    if !(Term::eq(&c, st) && Term::eq(st, c.borrow_term()) && Term::cmp(&c, st) == Ordering::Equal && Term::cmp(st, c.borrow_term()) == Ordering::Equal && rec(c.borrow_term()) == *h0 && spelled == coq_term(st)) {
+        fails.push(format!("{how}: built {c:?} for the term {st:?} (eq={}, cmp={:?}, same hash={})", Term::eq(&c, st), Term::cmp(&c, st), rec(c.borrow_term()) == *h0));
     }
     obs.push(spelled);
 }
@@ -471,6 +655,11 @@ fn cross_traits<X: Term + PartialEq<Y> + PartialOrd<Y>, Y: Term>(x: &X, y: &Y) -
     if x.partial_cmp(y) != Some(c) || (x < y) != (c == Ordering::Less) || (x >= y) != (c != Ordering::Less) { return Some(format!("partial_cmp gives {:?} but Term::cmp gives {c:?}", x.partial_cmp(y))); }
     None
 }
+/// the strings a term is made of
+fn collect_strs(st: &ST, out: &mut std::collections::BTreeSet<String>) { match st {
+    SimpleTerm::Iri(i) => { out.insert(i.as_str().to_string()); } SimpleTerm::BlankNode(l) => { out.insert(l.as_str().to_string()); } SimpleTerm::Variable(n) => { out.insert(n.as_str().to_string()); }
+    SimpleTerm::LiteralDatatype(l, d) => { out.insert(l.to_string()); out.insert(d.as_str().to_string()); } SimpleTerm::LiteralLanguage(l, g) => { out.insert(l.to_string()); out.insert(g.as_str().to_string()); }
+    SimpleTerm::Triple(tr) => for c in tr.iter() { collect_strs(c, out) } } }
 fn c_cmp(o: Ordering) -> &'static str { match o { Ordering::Less => "Lt", Ordering::Equal => "Eq", Ordering::Greater => "Gt" } }
 
 fn main() {
@@ -479,6 +668,8 @@ fn main() {
     sum.rule = "batches of abstract terms (all kinds, nesting <= 2, case-variant language tags, non-BMP strings, native-valued literals); each term is instantiated in every Term type that can hold it; \
 evaluation = one ordered pair of abstract terms compared in ALL pairs of representations (eq, cmp) or one term hashed in all representations or converted along every conversion path; \
 or one term observed through every accessor / component iterator / to_triple / native conversion of every representation, or rebuilt along every other construction path (From impls, checked and const constructors, `*` operators, stash copies, JSON-LD vocabulary round trips, rio statement accessors), or one graph-name comparison; \
+hashes are compared as sequences of Hasher calls (method + argument) through every entry point, and as digests of three boundary-sensitive hashers; \
+the pools include families of IRIs / labels / names / lexical forms that a normalisation would identify (scheme, host and percent-encoding case, dot segments, default ports, NFC/NFD, IDNA) and language tags in every case mix, all of them copied into string stashes along three histories (pool order, reverse, rotated; replayed in the Coq stash model) and into a term index; \
 non-trivial pair = equal-but-differently-spelled terms, or same-kind unequal terms; distinct = distinct printed pair".into();
     let base = Rng::new(a.seed);
     let batches: Vec<usize> = match a.only { Some(i) => vec![i], None => (0..a.n).collect() };
@@ -494,19 +685,72 @@ non-trivial pair = equal-but-differently-spelled terms, or same-kind unequal ter
         let twins: Vec<Abs> = pool.iter().filter_map(|x| flip_case(&x.st)).map(|st| Abs { st, native: Native::None, ns_split: vec![] }).collect();
         pool.extend(twins.into_iter().take(4));
         // near misses: for a few terms of the pool, terms differing from them in one respect only
-        for _ in 0..3 { let k = r.below(pool_size); let nv = near_variants(&pool[k].st.clone(), &mut r); for st in nv.into_iter().take(3) { pool.push(Abs { st, native: Native::None, ns_split: vec![] }); } }
+        for _ in 0..3 { let k = r.below(pool_size); let nv = near_variants(&pool[k].st.clone(), &mut r); for st in nv.into_iter().filter(well_formed).take(3) { pool.push(Abs { st, native: Native::None, ns_split: vec![] }); } }
+        // ---- directed stream: texts that a normalisation would identify, side by side in the same batch (hence in the same stashes, indexes, comparisons) ----
+        { let mut extra: Vec<ST> = vec![];
+          // two families of IRIs per batch, rotating: 11 batches visit the 22 families
+          for q in 0..2 {
+              let fam = IRI_FAMILIES[(2 * b + q + a.seed as usize) % IRI_FAMILIES.len()];
+              let mut ms: Vec<&str> = vec![fam[0]]; let k1 = 1 + r.below(fam.len() - 1); ms.push(fam[k1]); let k2 = 1 + r.below(fam.len() - 1); if k2 != k1 { ms.push(fam[k2]); }
+              for m in &ms { extra.push(iri(m)); }
+              let d = ms[r.below(ms.len())]; extra.push(lit_dt(*r.pick(&["1", "a", ""]), d));
+              if q == 0 { let (x, y, z) = (ms[r.below(ms.len())], ms[r.below(ms.len())], ms[r.below(ms.len())]); extra.push(triple(iri(x), iri(y), if r.chance(1, 2) { lit_dt("1", z) } else { iri(z) })); }
+          }
+          // one family of other texts, as blank node labels / variable names / lexical forms (rotating)
+          { let fam = TEXT_FAMILIES[(b + a.seed as usize) % TEXT_FAMILIES.len()]; let (x, y) = (fam[0], fam[1 + r.below(fam.len() - 1)]);
+            match (b / TEXT_FAMILIES.len() + b) % 4 { 0 => { extra.push(bnode(x)); extra.push(bnode(y)); } 1 => { extra.push(var(x)); extra.push(var(y)); } 2 => { extra.push(lit_dt(x, &format!("{XSD}string"))); extra.push(lit_dt(y, &format!("{XSD}string"))); } _ => { extra.push(lit_lang(x, "en")); extra.push(lit_lang(y, "EN")); } } }
+          { let fam = LEX_FAMILIES[(b + a.seed as usize) % LEX_FAMILIES.len()]; let (x, y) = (fam[0], fam[1 + r.below(fam.len() - 1)]); let d = if r.chance(1, 2) { format!("{XSD}string") } else { norm_dt(&mut r).to_string() }; extra.push(lit_dt(x, &d)); extra.push(lit_dt(y, &d)); }
+          // language tags in a random case mix: equal terms
+          let tagged: Vec<ST> = pool.iter().chain(std::iter::once(&Abs { st: lit_lang("chat", *r.pick(&TAGS[..])), native: Native::None, ns_split: vec![] })).filter_map(|x| mix_case(&x.st, &mut r)).collect();
+          for st in tagged.into_iter().rev().take(2) { extra.push(st); }
+          // in a random order (the order of insertion into the stashes / the index)
+          while !extra.is_empty() { let k = r.below(extra.len()); let st = extra.swap_remove(k); if well_formed(&st) { let ns_split = match &st { SimpleTerm::Iri(i) => { let n = i.as_str().len(); let mut v = vec![n]; if let Some(k) = natural_split(i.as_str()) { if k != n { v.push(k); } } let k = r.below(n + 1); if i.as_str().is_char_boundary(k) && !v.contains(&k) { v.push(k); } v.retain(|k| IriRef::new(&i.as_str()[..*k]).is_ok()); v } _ => vec![] }; pool.push(Abs { st, native: Native::None, ns_split }); } }
+        }
+        // ---- stash histories: the batch-wide stashes below receive the terms in pool order; these receive them in reverse order / rotated ----
+        let mut arc_rev = ArcStrStash::new(); let mut rc_rot = RcStrStash::new();
+        let rev_order: Vec<usize> = (0..pool.len()).rev().collect();
+        let rot_order: Vec<usize> = (0..pool.len()).map(|k| (k + b + 1) % pool.len()).collect();
+        let mut rev_copies: Vec<Option<ArcTerm>> = vec![None; pool.len()]; let mut rot_copies: Vec<Option<RcTerm>> = vec![None; pool.len()];
+        for k in &rev_order { rev_copies[*k] = Some(arc_rev.copy_term(&pool[*k].st)); }
+        for k in &rot_order { rot_copies[*k] = Some(rc_rot.copy_term(pool[*k].st.borrow_term())); }
+        // ---- the term index of sophia_inmem (an interning container keyed by Term::hash / Term::eq) ----
+        let mut tindex = SimpleTermIndex::<u32>::new();
+        let tidx: Vec<u32> = pool.iter().map(|x| tindex.ensure_index(&x.st).unwrap()).collect();
         let mut arc_stash = ArcStrStash::new(); let mut rc_stash = RcStrStash::new();
         let all: Vec<Vec<Rep>> = pool.iter().map(|x| reps(x, &mut arc_stash, &mut rc_stash)).collect();
         for (i, x) in pool.iter().enumerate() { header.push_str(&format!("Definition t{b}_{i} : term := {}.\n", coq_term(&x.st))); }
-        // hashing: all representations write the same bytes
+        // hashing: all representations, through every entry point, make the same CALLS on the hasher (so: same digest with ANY hasher)
+        let mut tr: Vec<Vec<Trace>> = vec![];
         for (i, x) in pool.iter().enumerate() {
-            let h0 = rec(&x.st);
-            for rp in &all[i] {
+            let h0 = rec(&x.st); let d0 = digests(&x.st);
+            let mut mine: Vec<Trace> = vec![]; let mut picked: Option<Trace> = None;
+            let pick = (i * 7 + b) % all[i].len();
+            for (k, rp) in all[i].iter().enumerate() {
                 let h = with_rep!(rp, t => rec(t.borrow_term()));
-                if h != h0 { sum.oracle_failures.push((format!("{b}"), format!("hash differs between representations of {:?}: {} writes {:?}, SimpleTerm writes {:?}", x.st, rep_name(rp), h, h0))); }
+                if h != h0 { sum.oracle_failures.push((format!("{b}"), format!("hash differs between representations of {:?}: {} calls {:?}, SimpleTerm calls {:?} ({})", x.st, rep_name(rp), h, h0, told_apart(&h, &h0)))); }
+                // every way of reaching the hash of this value: the value, references to it, what borrow_term hands out, CmpTerm around it (Term::hash and std Hash)
+                let mut entries = with_rep!(rp, t => hash_entries(t));
+                entries.extend(match rp {
+                    Rep::Simple(y) => ref_entries(y), Rep::SimpleRef(y) => ref_entries(*y), Rep::Borrowed(y) => ref_entries(y), Rep::Arc(y) | Rep::ArcStashed(y) => ref_entries(y), Rep::Rc(y) | Rep::RcStashed(y) => ref_entries(y),
+                    Rep::GenLit(y) => ref_entries(y), Rep::Ns(y) => ref_entries(y), Rep::IriW(y) => ref_entries(y), Rep::IriRefW(y) => ref_entries(y), Rep::BnodeW(y) => ref_entries(y), Rep::VarW(y) => ref_entries(y),
+                    Rep::Str(y) => ref_entries::<str>(y),
+                    Rep::JRdf(y) => ref_entries(y), _ => vec![] });
+                for (how, e) in &entries { if *e != h0 { sum.oracle_failures.push((format!("{b}"), format!("hash differs between representations of {:?}: {how} on {} calls {:?}, SimpleTerm calls {:?} ({})", x.st, rep_name(rp), e, h0, told_apart(e, &h0)))); } sum.bump("hash entry point"); }
+                // the std Hash of the term types that have one
+                let sh: Option<Trace> = match rp { Rep::Simple(y) => Some(rec_std(y)), Rep::Borrowed(y) => Some(rec_std(y)), Rep::Arc(y) | Rep::ArcStashed(y) => Some(rec_std(y)), Rep::Rc(y) | Rep::RcStashed(y) => Some(rec_std(y)),
+                    Rep::Cmp(y) => Some(rec_std(y)), Rep::CmpArc(y) => Some(rec_std(y)), Rep::GenLit(y) => Some(rec_std(y)), Rep::Result(y) | Rep::ResultCached(y) => Some(rec_std(y)), _ => None };
+                if let Some(e) = sh { if e != h0 { sum.oracle_failures.push((format!("{b}"), format!("std Hash of {} holding {:?} calls {:?}, Term::hash of the SimpleTerm calls {:?} ({})", rep_name(rp), x.st, e, h0, told_apart(&e, &h0)))); } sum.bump("hash entry point"); }
+                // three real hashers that are sensitive to the boundaries of the calls (+ SipHash), driven by the real Term::hash
+                let d = with_rep!(rp, t => digests(t));
+                if d != d0 { let which: Vec<&str> = (0..4).filter(|q| d[*q] != d0[*q]).map(|q| HASHERS[q]).collect(); sum.oracle_failures.push((format!("{b}"), format!("equal terms hash differently under the hasher(s) {which:?}: {} holding {:?} vs the SimpleTerm", rep_name(rp), x.st))); }
+                if k == pick { picked = Some(entries[(i + b) % entries.len()].1.clone()); }
+                mine.push(h);
                 sum.bump(&format!("rep:{}", rep_name(rp)));
             }
-            cases.push((case_no, format!("hash_ok t{b}_{i} {}", coq_bytes(&h0)))); case_no += 1; sum.evaluations += 1;
+            tr.push(mine);
+            cases.push((case_no, format!("hash_ok t{b}_{i} {}", coq_bytes(&h0.bytes())))); case_no += 1; sum.evaluations += 1;
+            // the model's call sequence against what one representation (rotating) did through one entry point (rotating)
+            cases.push((case_no, format!("hash_calls_ok t{b}_{i} {}", picked.unwrap().coq()))); case_no += 1; sum.evaluations += 1;
             // conversions along every path yield an equal term
             for rp in &all[i] {
                 macro_rules! conv { ($ty:ty, $name:expr) => {{
@@ -565,6 +809,23 @@ non-trivial pair = equal-but-differently-spelled terms, or same-kind unequal ter
             for j in jrdf_forms(&x.st) { same("RdfTerm::from", j, &x.st, &h0, &mut built, &mut bf); }
             same("SimpleTerm::from_term_ref", SimpleTerm::from_term_ref(&x.st), &x.st, &h0, &mut built, &mut bf);
             same("RcStrStash::copy_term", rc_stash.copy_term(&x.st), &x.st, &h0, &mut built, &mut bf);
+            // stash copies along other histories: terms copied in reverse / rotated order, a stash of its own, copies of copies, a second copy
+            same("ArcStrStash::copy_term (terms copied in reverse order)", rev_copies[i].clone().unwrap(), &x.st, &h0, &mut built, &mut bf);
+            same("RcStrStash::copy_term (terms copied in rotated order)", rot_copies[i].clone().unwrap(), &x.st, &h0, &mut built, &mut bf);
+            same("ArcStrStash::copy_term (second copy)", arc_rev.copy_term(&x.st), &x.st, &h0, &mut built, &mut bf);
+            same("ArcStrStash::new().copy_term", ArcStrStash::new().copy_term(&x.st), &x.st, &h0, &mut built, &mut bf);
+            same("RcStrStash::new().copy_term", RcStrStash::new().copy_term(&x.st), &x.st, &h0, &mut built, &mut bf);
+            same("RcStrStash::copy_term(ArcStrStash::copy_term)", rc_rot.copy_term(rev_copies[i].as_ref().unwrap()), &x.st, &h0, &mut built, &mut bf);
+            same("ArcStrStash::copy_term(RcStrStash::copy_term)", ArcStrStash::default().copy_term(rot_copies[i].as_ref().unwrap()), &x.st, &h0, &mut built, &mut bf);
+            // every string of the term through copy_str / get_or_insert / get
+            { let mut strs = std::collections::BTreeSet::new(); collect_strs(&x.st, &mut strs);
+              for t in &strs { if &*arc_rev.copy_str(t.as_str()) != t.as_str() || &**rc_rot.get_or_insert(t) != t.as_str() || arc_rev.get(t).map(|y| &**y) != Some(t.as_str()) || rc_rot.get(t).map(|y| &**y) != Some(t.as_str()) { bf.push(format!("copy_str / get_or_insert / get of {t:?} does not give that text")); } } }
+            // the term index: the term it holds for this index is equal to the term (and spelled like the first term of the class it was given)
+            { let first = tidx.iter().position(|k| *k == tidx[i]).unwrap();
+              let held = tindex.get_term(tidx[i]);
+              if !Term::eq(held, &x.st) || rec(held) != h0 || coq_term(held) != coq_term(&pool[first].st) { bf.push(format!("SimpleTermIndex holds {held:?} for the index given to {:?}", x.st)); }
+              for rp in &all[i] { let got = with_rep!(rp, t => tindex.get_index(t.borrow_term())); if got != Some(tidx[i]) { bf.push(format!("SimpleTermIndex::get_index({} {:?}) = {got:?}, the term was given the index {}", rep_name(rp), x.st, tidx[i])); } }
+              if first == i { built.push(coq_term(held)); } }
             let leak = |t: &str| -> &'static str { Box::leak(t.to_string().into_boxed_str()) };
             match &x.st {
                 SimpleTerm::Iri(i) => {
@@ -577,7 +838,7 @@ non-trivial pair = equal-but-differently-spelled terms, or same-kind unequal ter
                     for k in &x.ns_split { let ns = NsTerm::new_unchecked(IriRef::new_unchecked(&t[..*k]), &t[*k..]); same("NsTerm::iriref", ns.iriref(), &x.st, &h0, &mut built, &mut bf); same("NsTerm::to_iriref", ns.to_iriref(), &x.st, &h0, &mut built, &mut bf); }
                     if let Some(ai) = arc_iri(t) { let (v1, mut v2) = (ArcVoc::default(), ArcVoc::default());
                         same("ArcVoc::get(iri)", v1.get(v1.iri(&ai).unwrap()).unwrap(), &x.st, &h0, &mut built, &mut bf); same("ArcVoc::insert(iri)", v2.insert(v1.iri(&ai).unwrap()), &x.st, &h0, &mut built, &mut bf); }
-                    let w = Iri::new_unchecked(t.to_string()); if AsRef::<String>::as_ref(&w) != t || Borrow::<String>::borrow(&w) != t || w.clone().unwrap() != t { bf.push("Iri<String>: AsRef<T> / Borrow<T> / unwrap do not give the wrapped text".into()); }
+                    if Iri::new(t).is_ok() { let w = Iri::new_unchecked(t.to_string()); if AsRef::<String>::as_ref(&w) != t || Borrow::<String>::borrow(&w) != t || w.clone().unwrap() != t { bf.push("Iri<String>: AsRef<T> / Borrow<T> / unwrap do not give the wrapped text".into()); } }
                 }
                 SimpleTerm::BlankNode(l) => {
                     let t = l.as_str();
@@ -598,7 +859,7 @@ non-trivial pair = equal-but-differently-spelled terms, or same-kind unequal ter
                 }
                 SimpleTerm::LiteralDatatype(l, d) => {
                     let (l, d) = (&l[..], d.as_str());
-                    let mut ks = vec![0, d.len()]; let k = r.below(d.len() + 1); if d.is_char_boundary(k) { ks.push(k); }
+                    let mut ks = vec![0, d.len()]; let k = r.below(d.len() + 1); if d.is_char_boundary(k) { ks.push(k); } if let Some(k) = natural_split(d) { ks.push(k); } ks.retain(|k| IriRef::new(&d[..*k]).is_ok());
                     for k in ks { // `lexical form * namespace term`
                         let t = l * NsTerm::new_unchecked(IriRef::new_unchecked(&d[..k]), &d[k..]);
                         cases.push((case_no, format!("ns_lit_ok {} {} {} {}", coq_str(&d[..k]), coq_str(&d[k..]), coq_str(l), coq_term(&t)))); case_no += 1; sum.evaluations += 1;
@@ -645,10 +906,11 @@ non-trivial pair = equal-but-differently-spelled terms, or same-kind unequal ter
             let e0 = Term::eq(&pool[i].st, pool[j].st.borrow_term());
             let c0 = Term::cmp(&pool[i].st, pool[j].st.borrow_term());
             eqm[i][j] = e0; cmpm[i][j] = c0;
-            for ra in &all[i] { for rb in &all[j] {
-                let (e, c, he) = with_rep!(ra, x => with_rep!(rb, y => (Term::eq(x, y.borrow_term()), Term::cmp(x, y.borrow_term()), rec(x.borrow_term()) == rec(y.borrow_term()))));
+            for (ka, ra) in all[i].iter().enumerate() { for (kb, rb) in all[j].iter().enumerate() {
+                let (e, c) = with_rep!(ra, x => with_rep!(rb, y => (Term::eq(x, y.borrow_term()), Term::cmp(x, y.borrow_term()))));
+                let he = tr[i][ka] == tr[j][kb]; // (the call sequences of rec(x.borrow_term()) and rec(y.borrow_term()), recorded above)
                 if e != e0 || c != c0 { sum.oracle_failures.push((format!("{b}"), format!("{} vs {}: eq={e} cmp={c:?} but SimpleTerm vs SimpleTerm gives eq={e0} cmp={c0:?} for {:?} / {:?}", rep_name(ra), rep_name(rb), pool[i].st, pool[j].st))); }
-                if e && !he { sum.oracle_failures.push((format!("{b}"), format!("equal terms hash differently: {} {:?} / {} {:?}", rep_name(ra), pool[i].st, rep_name(rb), pool[j].st))); }
+                if e && !he { sum.oracle_failures.push((format!("{b}"), format!("equal terms hash differently: {} {:?} / {} {:?} ({})", rep_name(ra), pool[i].st, rep_name(rb), pool[j].st, told_apart(&tr[i][ka], &tr[j][kb])))); }
                 if (c == Ordering::Equal) != e { sum.oracle_failures.push((format!("{b}"), format!("cmp Equal <-> eq violated: {} {:?} / {} {:?}", rep_name(ra), pool[i].st, rep_name(rb), pool[j].st))); }
                 sum.bump("pair-in-rep-pair");
             } }
@@ -680,6 +942,7 @@ non-trivial pair = equal-but-differently-spelled terms, or same-kind unequal ter
                 let (g1, g2) = with_rep!(ra, x => (graph_name_eq(Some(x.borrow_term()), Some(&pool[j].st)), graph_name_eq(Some(&pool[j].st), Some(x.borrow_term()))));
                 if g1 != e0 || g2 != e0 { sum.oracle_failures.push((format!("{b}"), format!("graph_name_eq(Some({} {:?}), Some({:?})) = {g1}, reversed = {g2}, Term::eq gives {e0}", rep_name(ra), pool[i].st, pool[j].st))); }
             }
+            if (tidx[i] == tidx[j]) != e0 { sum.oracle_failures.push((format!("{b}"), format!("SimpleTermIndex gives the indexes {} / {} to {:?} / {:?}, Term::eq gives {e0}", tidx[i], tidx[j], pool[i].st, pool[j].st))); }
             if j == (i * 5 + b) % pool.len() || j == i {
                 cases.push((case_no, format!("gname_ok (Some t{b}_{i}) (Some t{b}_{j}) {}", coq_bool(graph_name_eq(Some(&pool[i].st), Some(&pool[j].st)))))); case_no += 1; sum.evaluations += 1;
             }
@@ -697,8 +960,10 @@ non-trivial pair = equal-but-differently-spelled terms, or same-kind unequal ter
         } }
         // ---- statements made of rio terms: the Triple / Quad accessors hand out the components as terms ----
         for (i, x) in pool.iter().enumerate() { if let SimpleTerm::Triple(tr) = &x.st {
+            if !rio_ok(&x.st) { continue; }
             let exp = [coq_term(&tr[0]), coq_term(&tr[1]), coq_term(&tr[2])];
             let gi = if r.chance(1, 3) { None } else { Some(r.below(pool.len())) };
+            let gi = gi.filter(|g| rio_ok(&pool[*g].st));
             let eg = gi.map(|g| coq_term(&pool[g].st));
             let mut bad: Vec<String> = vec![];
             let mut chk = |how: &str, spo: [String; 3], g: Option<Option<String>>, exp_g: &Option<String>| { if spo != exp || g.as_ref().is_some_and(|g| g != exp_g) { bad.push(format!("{how} gives {spo:?} {g:?}, expected {exp:?} {exp_g:?}")); } };
@@ -744,15 +1009,20 @@ non-trivial pair = equal-but-differently-spelled terms, or same-kind unequal ter
           cases.push((case_no, format!("gname_ok None None {}", coq_bool(graph_name_eq(None::<&ST>, None::<&ST>))))); case_no += 1; sum.evaluations += 1; }
         // ---- the stashes hold exactly the strings of the terms copied into them, each once ----
         { let mut strs = std::collections::BTreeSet::new();
-          fn collect(st: &ST, out: &mut std::collections::BTreeSet<String>) { match st {
-              SimpleTerm::Iri(i) => { out.insert(i.as_str().to_string()); } SimpleTerm::BlankNode(l) => { out.insert(l.as_str().to_string()); } SimpleTerm::Variable(n) => { out.insert(n.as_str().to_string()); }
-              SimpleTerm::LiteralDatatype(l, d) => { out.insert(l.to_string()); out.insert(d.as_str().to_string()); } SimpleTerm::LiteralLanguage(l, g) => { out.insert(l.to_string()); out.insert(g.as_str().to_string()); }
-              SimpleTerm::Triple(tr) => for c in tr.iter() { collect(c, out) } } }
-          for x in &pool { collect(&x.st, &mut strs); }
+          for x in &pool { collect_strs(&x.st, &mut strs); }
           let ok = |len: usize, empty: bool, has: &dyn Fn(&str) -> bool| len == strs.len() && empty == strs.is_empty() && strs.iter().all(|t| has(t)) && !has("\u{1}never copied");
           if !ok(arc_stash.len(), arc_stash.is_empty(), &|t| arc_stash.get(t).is_some_and(|a| &**a == t)) { sum.oracle_failures.push((format!("{b}"), format!("ArcStrStash holds {} strings, the copied terms are made of {}", arc_stash.len(), strs.len()))); }
           if !ok(rc_stash.len(), rc_stash.is_empty(), &|t| rc_stash.get(t).is_some_and(|a| &**a == t)) { sum.oracle_failures.push((format!("{b}"), format!("RcStrStash holds {} strings, the copied terms are made of {}", rc_stash.len(), strs.len()))); }
-          if !ArcStrStash::default().is_empty() || RcStrStash::new().len() != 0 { sum.oracle_failures.push((format!("{b}"), "a new stash is not empty".into())); } }
+          if !ok(arc_rev.len(), arc_rev.is_empty(), &|t| arc_rev.get(t).is_some_and(|a| &**a == t)) { sum.oracle_failures.push((format!("{b}"), format!("ArcStrStash (terms copied in reverse order) holds {} strings, the copied terms are made of {}", arc_rev.len(), strs.len()))); }
+          if !ok(rc_rot.len(), rc_rot.is_empty(), &|t| rc_rot.get(t).is_some_and(|a| &**a == t)) { sum.oracle_failures.push((format!("{b}"), format!("RcStrStash (terms copied in rotated order) holds {} strings, the copied terms are made of {}", rc_rot.len(), strs.len()))); }
+          if !ArcStrStash::default().is_empty() || RcStrStash::new().len() != 0 { sum.oracle_failures.push((format!("{b}"), "a new stash is not empty".into())); }
+          // the stash model of Coq replays the two histories: the copies handed out, the number of strings held at the end
+          cases.push((case_no, format!("stash_run_ok {} {} {}", coq_list(rev_order.iter().map(|k| format!("t{b}_{k}"))), coq_list(rev_order.iter().map(|k| coq_term(rev_copies[*k].as_ref().unwrap()))), arc_rev.len()))); case_no += 1;
+          cases.push((case_no, format!("stash_run_ok {} {} {}", coq_list(rot_order.iter().map(|k| format!("t{b}_{k}"))), coq_list(rot_order.iter().map(|k| coq_term(rot_copies[*k].as_ref().unwrap()))), rc_rot.len()))); case_no += 1;
+          sum.evaluations += 2; sum.bump_by("stash history replayed in the model", 2);
+          // the term index holds one term per class of equal terms
+          let classes = (0..pool.len()).filter(|i| (0..*i).all(|j| !eqm[*i][j])).count();
+          if tindex.len() != classes { sum.oracle_failures.push((format!("{b}"), format!("SimpleTermIndex holds {} terms, {classes} pairwise different terms were given to it", tindex.len()))); } }
         // laws on triples of values
         let n = pool.len();
         for i in 0..n { for j in 0..n {
